@@ -506,7 +506,7 @@ package generator
 //@   shape decl = decl(T,none) | decl(T,addl) | decl(T,addl2)
 //@   shape validators = absvals(0) | absvals(1) | absvals(2)
 //@   assigns *g.output.file
-//@   ensures [C01] additional-properties-block-has-its-imports: !g.config.OnlyModels && struct_has_field(decl.Type, "AdditionalProperties") ==> has_import(g, "reflect") && has_import(g, "strings") && has_import(g, "github.com/go-viper/mapstructure/v2")
+//@   ensures [C01,C16] additional-properties-block-has-its-imports: !g.config.OnlyModels && struct_has_field(decl.Type, "AdditionalProperties") ==> has_import(g, "reflect") && has_import(g, "strings") && has_import(g, "github.com/go-viper/mapstructure/v2")
 //@   ensures [C01,C16] no-unused-additional-properties-import: !struct_has_field(decl.Type, "AdditionalProperties") ==> !has_import(g, "reflect") && !has_import(g, "strings") && !has_import(g, "github.com/go-viper/mapstructure/v2")
 //@   ensures [C16] only-models-adds-nothing: g.config.OnlyModels ==> len(g.output.file.Package.Decls) == 0 && len(g.output.file.Package.Imports) == 0
 //@   ensures [C16,C17] one-method-per-formatter: !g.config.OnlyModels ==> len(g.output.file.Package.Decls) == len(g.formatters) && has_import(g, "encoding/json") && (has_import(g, "gopkg.in/yaml.v3") <==> len(g.formatters) == 2)
